@@ -502,7 +502,11 @@ func (s *Shard) SearchPoints(searchRequest models.SearchRequest) ([]models.Searc
 	if searchRequest.Limit == 0 {
 		searchRequest.Limit = len(finalResults)
 	}
-	finalResults = finalResults[min(searchRequest.Offset, len(finalResults)):min(searchRequest.Offset+searchRequest.Limit, len(finalResults))]
+	// The end is taken from what is left after the offset: offset + limit
+	// overflows for an offset near the largest integer.
+	start := min(searchRequest.Offset, len(finalResults))
+	end := start + min(searchRequest.Limit, len(finalResults)-start)
+	finalResults = finalResults[start:end]
 	// ---------------------------
 	return finalResults, nil
 }
